@@ -175,8 +175,8 @@ def run(ctx):
         why = 'is not one of the three numbering sites'
         if lab in ('PlanStep.__init__', 'Result.__init__') and isinstance(st, ast.Assign) and norm(st.value) == 'step_num':
             ok = True
-        elif lab.startswith('QueryPlan.') and isinstance(st, ast.Assign) and norm(st.value) == 'len(self.steps)':
-            ok = True           # what add_step does with it is decided by the add_step table below
+        elif lab.startswith('QueryPlan.') and isinstance(st, ast.Assign) and (norm(st.value) == 'len(self.steps)' or lab == 'QueryPlan.add_step'):
+            ok = True           # what add_step does with it - however the number is computed - is decided by the interpreted add_step table below
         elif isinstance(st, ast.Assign) and 'partition.step_num' in norm(st.value) and 'len(' in norm(st.value):
             # sub-step namer: '<container>_<index>' followed by the append to the container
             fn = enclosing_function(n)
